@@ -18,10 +18,24 @@ class TokenStream:
 
     eof = Token(TOKEN_EOF, TOKEN_EOF, -1, "")
 
-    def __init__(self, tokens: Iterator[Token], block_depth_carry: int = 0):
+    def __init__(
+        self,
+        tokens: Iterator[Token],
+        block_depth_carry: int = 0,
+        parent_token: Optional[Token] = None,
+    ):
         self.tokens = list(tokens)
         self.pos = 0
         self.block_depth = block_depth_carry
+
+        # Give "end of expression" a position, so errors raised when running out of
+        # tokens can point at the end of the expression or template they were
+        # reading: just after the last token, or after the enclosing expression
+        # token if there are no tokens at all.
+        last = self.tokens[-1] if self.tokens else parent_token
+        if last is not None and last.start_index >= 0 and last.source:
+            index = min(last.start_index + len(last.value), len(last.source) - 1)
+            self.eof = Token(TOKEN_EOF, TOKEN_EOF, index, last.source)
 
     def __next__(self) -> Token:
         return self.next_token()
@@ -132,7 +146,9 @@ class TokenStream:
 
         if eat:
             next(self)
-        return TokenStream(tokenize(token.value, parent_token=token))
+        return TokenStream(
+            tokenize(token.value, parent_token=token), parent_token=token
+        )
 
     def expect_eos(self) -> None:
         """Raise a syntax error if we're not at the end of the stream."""
